@@ -31,6 +31,17 @@ def run_one(prop: str, tier: str, repo_root: str | None = None) -> int:
         return 2
     ctx = Ctx(prop, tier, Repo(Path(repo_root)) if repo_root else None)
     err = None
+    # watchdog: an analyser that does not terminate is a broken analyser (exit 2), never a hang
+    import signal
+
+    def _timeout(signum, frame):
+        raise AnalysisError(f"analysis of {prop} exceeded the time limit")
+
+    try:
+        signal.signal(signal.SIGALRM, _timeout)
+        signal.alarm(int(os.environ.get("VT_RULE_TIMEOUT", "180")))
+    except (ValueError, AttributeError):
+        pass
     try:
         mod.run(ctx)
     except AnalysisError as e:
@@ -38,6 +49,10 @@ def run_one(prop: str, tier: str, repo_root: str | None = None) -> int:
     except Exception as e:  # a crash of the analyser is never a violation
         traceback.print_exc()
         err = f"analyser crashed: {type(e).__name__}: {e}"
+    try:
+        signal.alarm(0)
+    except (ValueError, AttributeError):
+        pass
     if ctx.deferred_errors:
         err = "; ".join(([err] if err else []) + ctx.deferred_errors)
     if tier == "thorough" and repo_root is None and not os.environ.get("VT_NO_SELFTEST"):
